@@ -227,6 +227,7 @@ def check_fe64(ctx, P, cfg="K0", rule="fe-bounds"):
               where=P.fn(prod[0][0]).where(), key="%s:fe64:closed" % rule)
     if stable and not bad:
         ctx.guard("encode", "fe64::to_packed", lambda: check_to_bytes(ctx, P, "fe64", cfg, B))
+        ctx.guard("canonical-value", "fe64::to_packed", lambda: check_canonical_value64(ctx, P, B))
     return B
 
 
@@ -333,7 +334,8 @@ def check_to_bytes(ctx, P, backend, cfg, B=None, rule="encode"):
       digits     under the input bounds of the backend every output digit is reduced where it is packed with
                  `(d_i >> a) | (d_j << b)`, and no overflow assert can fire
       bits       the output bytes / words are the consecutive bit-fields of those digits
-    Not decided: that the quotient the code folds back is floor(H / p) for every input (ref10's magnitude argument)."""
+    Not decided here: that the quotient the code folds back is floor(H / p) for every input — for fe64 that is the separate
+    `canonical-value` rule (check_canonical_value64); for fe32 it rests on ref10's magnitude argument and is not decided."""
     from .. import limbpoly, termbits, intern
     from ..poly import Poly
     from ..spec import curve
@@ -461,3 +463,181 @@ def check_to_bytes(ctx, P, backend, cfg, B=None, rule="encode"):
     ctx.check(nparts >= 1 and not bad and not afail, rule, path + ":digits", "every output digit d_i is within [0, 2^w_i) under the backend's input bounds; no overflow assert can fire",
               "%s: output digits are not reduced where they are packed (a final carry step is missing or uses the wrong width), or an operation can overflow: %s; undischarged %s" % (path, [(i, bounds.fmt_iv(v)) for i, v in bad[:4]], [(f[1], bounds.fmt_iv(f[2]) if f[2] else None) for f in afail[:3]]),
               where=fn.where(), key="%s:%s:digits" % (rule, path))
+
+
+# --------------------------------------------------------------------------------------------------------- canonical value (fe64)
+def check_canonical_value64(ctx, P, B, rule="canonical-value"):
+    """fe64 Fe::to_packed returns H mod p for EVERY limb vector within the closed invariant B: a piecewise-affine
+    abstract interpretation of the VALUE through the sequence of helper stages.
+
+      helper contracts (derived from the helpers' own MIR terms, not assumed):
+        carry_full :  sum(out_i 2^(51 i)) == V - p * Q  with Q the top carry of an exact carry chain whose remainder digits are
+                      all masked to 51 bits, hence Q = floor(V / 2^255);     carry_final:  V mod 2^255  likewise
+      composition (from to_packed's MIR: which helper output / constant feeds which helper input):
+        the value is tracked as a set of pieces  V = V0 + k  on sub-intervals of the input range; every stage splits the
+        pieces by its quotient.  At the end every piece must satisfy  k == 0 (mod p)  and  0 <= V0 + k < p."""
+    from .. import limbpoly, intern
+    from ..poly import Poly
+    PMOD = (1 << 255) - 19
+    T = "curve25519::fe::fe64::Fe::to_packed"
+    fn = P.fn(T)
+    helpers = {}
+    bad = []
+    for h in ("carry_full", "carry_final"):
+        hf = P.fn_opt("%s::%s" % (T, h))
+        if hf is None:
+            ctx.lost(rule, T + "::" + h, "helper not found")
+            return
+        r = ssa.Eval(P, hf).run()
+        intern.Interner().canon_result(r)
+        ret = r.ret
+        if not isinstance(ret, ssa.Agg):
+            ctx.fail(rule, T + "::" + h, "cannot see the five output digits", where=hf.where(), key="%s:%s:shape" % (rule, h))
+            return
+        outs = [ret.get_elem(i) for i in range(5)]
+
+        def leaf(t):
+            if t[0] == "load":
+                m = re.match(r"^arg1\[(\d)\]$", t[1])
+                if m:
+                    return "t_%s" % m.group(1)
+            if t[0] == "elem" and isinstance(t[1], tuple) and t[1] and t[1][0] == "load" and t[1][1] == "arg1" and isinstance(t[2], int):
+                return "t_%d" % t[2]
+            return None
+        LP = limbpoly.LimbPoly(leaf)
+        tot = Poly()
+        for i, o in enumerate(outs):
+            tot = tot + LP.val(o) * (1 << (51 * i))
+        V = Poly()
+        for i in range(5):
+            V = V + Poly.var("t_%d" % i) * (1 << (51 * i))
+        diff = tot - V
+        # exactly one residual symbol: the top carry, with coefficient -p (fold back times 19) or -2^255 (dropped)
+        want = -PMOD if h == "carry_full" else -(1 << 255)
+        okid = not LP.unknown and len(diff) == 1
+        qsym = None
+        if okid:
+            (mon, c), = diff.items()
+            okid = len(mon) == 1 and mon[0][1] == 1 and c == want
+            qsym = mon[0][0] if okid else None
+        # the remainder digits are masked to 51 bits (so the top carry is floor(V / 2^255))
+        inv = {v: k for k, v in LP.qnames.items()}
+        okmask = okid
+        if okid:
+            x, k = inv[qsym]
+            okmask = k == 51
+            for i, o in enumerate(outs):
+                core = o
+                if i == 0 and h == "carry_full":
+                    # (t0 & MASK) + 19 * Q
+                    v0 = LP.val(o) - Poly.var(qsym) * 19
+                    okmask = okmask and v0 == Poly.var("t_0") - Poly.var(LP.qnames.get((_strip(_find_masked(o)), 51), "?")) * (1 << 51) if _find_masked(o) is not None else False
+                else:
+                    okmask = okmask and isinstance(core, tuple) and core[0] == "bin" and core[1] == "BitAnd" and any(ssa.is_c(z) and z[1] == (1 << 51) - 1 for z in core[2:4])
+        helpers[h] = (hf, r, outs, okid and okmask)
+        if not (okid and okmask):
+            bad.append("%s: value identity %s, 51-bit remainder digits %s (residue %s)" % (h, okid, okmask, diff.show()[:120]))
+    if bad:
+        ctx.fail(rule, T, "the carry helpers of Fe::to_packed are not exact carry chains with the top carry folded back times 19 / dropped: %s" % "; ".join(bad), where=fn.where(), key="%s:%s:helpers" % (rule, T))
+        return
+    # ---- composition from to_packed's own MIR
+    r = ssa.Eval(P, fn).run()
+    stages = []   # (helper, source stage index or None for the input, per-digit constants)
+    call_ids = {}
+    okc = True
+    why = ""
+    for (bb, name, args, val) in r.calls:
+        short = name.split("::")[-1]
+        if short not in helpers:
+            continue
+        arr = None
+        if isinstance(val, tuple) and val and val[0] == "call":
+            av = r.argvals.get(val[3])
+            arr = av[0] if av else None
+        if arr is None:
+            okc, why = False, "argument of %s is not visible" % short
+            break
+        src = set()
+        consts = []
+        for i in range(5):
+            if isinstance(arr, ssa.Agg):
+                e = arr.get_elem(i)
+            else:
+                e = ("elem", arr, i)      # the array is an unmodified whole value (a call result or *self)
+            c = 0
+            while isinstance(e, tuple) and e[0] == "bin" and e[1] == "Add" and ssa.is_c(e[3]):
+                c += e[3][1]
+                e = e[2]
+            if isinstance(e, tuple) and e[0] == "elem" and isinstance(e[1], tuple) and e[1][0] == "call" and e[2] == i:
+                src.add(("stage", call_ids.get(e[1][3])))
+            elif isinstance(e, tuple) and e[0] == "load" and re.match(r"^arg1\.0\[%d\]$" % i, e[1]):
+                src.add(("input", None))
+            elif isinstance(e, tuple) and e[0] == "elem" and isinstance(e[1], tuple) and e[1][0] == "load" and e[1][1] in ("arg1.0", "arg1") and e[2] == i:
+                src.add(("input", None))
+            elif isinstance(e, tuple) and e[0] == "elem" and isinstance(e[1], tuple) and e[1][0] == "elem" and isinstance(e[1][1], tuple) and e[1][1][0] == "load" and e[1][1][1] == "arg1" and e[2] == i:
+                src.add(("input", None))
+            else:
+                src.add(("?", str(e)[:60]))
+            consts.append(c)
+        if len(src) != 1 or list(src)[0][0] == "?" or (list(src)[0][0] == "stage" and list(src)[0][1] is None):
+            okc, why = False, "digit sources of %s are mixed / not recognised: %s" % (short, sorted(src, key=str)[:3])
+            break
+        if isinstance(val, tuple) and val and val[0] == "call":
+            call_ids[val[3]] = len(stages)
+        stages.append((short, list(src)[0], consts))
+    if not okc or not stages or stages[-1][0] != "carry_final":
+        ctx.fail(rule, T, "cannot follow the values through Fe::to_packed: %s" % (why or "the last stage is not carry_final"), where=fn.where(), key="%s:%s:compose" % (rule, T))
+        return
+    # ---- piecewise-affine value analysis
+    Vmax = sum(B[i][1] << (51 * i) for i in range(5))
+    pieces_of = {}     # stage index -> list of (lo, hi, k)   with current value = V0 + k on V0 in [lo, hi]
+    inp = [(0, Vmax, 0)]
+    for si, (h, src, consts) in enumerate(stages):
+        cur = inp if src[0] == "input" else pieces_of[src[1]]
+        cadd = sum(c << (51 * i) for i, c in enumerate(consts))
+        out = []
+        for lo, hi, k in cur:
+            k2 = k + cadd
+            qlo, qhi = (lo + k2) >> 255, (hi + k2) >> 255
+            for q in range(qlo, qhi + 1):
+                a = max(lo, (q << 255) - k2)
+                b = min(hi, ((q + 1) << 255) - 1 - k2)
+                if a <= b:
+                    out.append((a, b, k2 - (PMOD if h == "carry_full" else (1 << 255)) * q))
+        pieces_of[si] = out
+        if len(out) > 4096:
+            ctx.fail(rule, T, "value analysis does not converge (too many pieces)", where=fn.where(), key="%s:%s:pieces" % (rule, T))
+            return
+    final = pieces_of[len(stages) - 1]
+    viol = []
+    for lo, hi, k in final:
+        if k % PMOD != 0 or lo + k < 0 or hi + k >= PMOD:
+            viol.append((lo, hi, k))
+    chain = " -> ".join(st[0] + ("+c" if any(st[2]) else "") for st in stages)
+    msg = ""
+    if viol:
+        lo, hi, k = viol[0]
+        if k % PMOD == 0:
+            msg = "for H in %s the result is H - %d*p, which is not below p" % (bounds.fmt_iv((lo, hi)), (-k) // PMOD)
+        else:
+            msg = "for H in %s the result is not congruent to H modulo p (offset %d mod p)" % (bounds.fmt_iv((lo, hi)), k % PMOD)
+    ctx.check(not viol, rule, T, "to_packed(H) == H mod p on every one of the %d value pieces of H in %s (stages: %s)" % (len(final), bounds.fmt_iv((0, Vmax)), chain),
+              "Fe::to_packed does not return the canonical representative for every limb vector the field code can produce: %s (stages: %s)" % (msg, chain),
+              where=fn.where(), key="%s:%s" % (rule, T))
+
+
+def _strip(t):
+    while isinstance(t, tuple) and t and t[0] == "cast":
+        t = t[1]
+    return t
+
+
+def _find_masked(o):
+    """in  (x & MASK) + 19 * q   return x"""
+    if isinstance(o, tuple) and o[0] == "bin" and o[1] == "Add":
+        for a in o[2:4]:
+            if isinstance(a, tuple) and a[0] == "bin" and a[1] == "BitAnd":
+                for x, m in ((a[2], a[3]), (a[3], a[2])):
+                    if ssa.is_c(m) and m[1] == (1 << 51) - 1:
+                        return x
+    return None
